@@ -131,6 +131,11 @@ associativity error exists. -/
 theorem C10_parse_render (e : SExpr) (hwf : e.WF) : parseTokens (render e) = .ok (toTree e) :=
   parseTokens_render e hwf
 
+-- non-vacuity: `2.5 kJ/(mol K^-1)` is well formed, and is read back
+example : (SExpr.bin (.bin (.num ⟨false, ['2', '.', '5']⟩ none) .juxt (.name ['k', 'J'] none)) .over
+    (.paren (.bin (.name ['m', 'o', 'l'] none) .juxt (.name ['K'] (some ⟨⟨true, ['1']⟩, false⟩))) none)).WF := by
+  simp only [SExpr.WF, SExpr.pwWF, NumLit.WF, SExpr.isFactor]; decide +kernel
+
 /-- **T2** `evalTokens (render e) = ⟦e⟧` for every well-formed tree with integer powers (any depth), over any
 database whose entries are exact magnitudes with integer exponents: a value is the denoted magnitude and
 exponent vector exactly; an unknown name is the units parse error; a zero divisor is the arithmetic error. -/
@@ -264,6 +269,9 @@ theorem C10_in_with_units_partial (thr : Rat) (ht : 0 ≤ thr) (x m : Rat) (d : 
   have : x * m * m⁻¹ = x := by field_simp
   simp [withUnits, hx, Val.mul, Val.plain, Mag.mul, hd, inUnits, Val.div, Mag.div, Mag.isZero, hm, Mag.inv, bind,
     Except.bind, pure, Except.pure, Dim.div_self ht, hz, this]
+
+example : inUnits (1 / 10 ^ 7) (withUnits (1 / 10 ^ 7) (5 / 2) ⟨.exact (1 / 100), ⟨1, 0, 0, 0, 0, 0, 0⟩⟩)
+    ⟨.exact (1 / 100), ⟨1, 0, 0, 0, 0, 0, 0⟩⟩ = .ok (.exact (5 / 2)) := by decide +kernel   -- 2.5 cm in cm
 
 /-- the full statement (all `x`) … -/
 def C10_in_with_units_full : Prop :=
